@@ -4,52 +4,57 @@
 From Coq Require Import Sorting.Sorted.
 From SV Require Import Base.Bytes Base.BytesP Model.LogFile Proofs.LogFileP Proofs.LogFileW.
 
-Definition ltm (a b : pfile) : Prop := p_mtime a < p_mtime b.
+(* [before leb a c]: a comes strictly before c in the heap order *)
+Definition before (leb : pfile -> pfile -> bool) (a c : pfile) : Prop := leb c a = false.
 
-Lemma Pops_sorted_suffix P es es' : Pops P es es' -> StronglySorted ltm es -> exists pre, es = pre ++ es'.
+Lemma Pops_sorted_suffix leb P es es' : Pops leb P es es' -> StronglySorted (before leb) es -> exists pre, es = pre ++ es'.
 Proof.
-  induction 1 as [es|l1 e l2 es' Hmin _ HP IH]; intros Hs.
+  induction 1 as [es|l1 e l2 es' Hmin Hleb _ HP IH]; intros Hs.
   - exists []. reflexivity.
   - destruct l1 as [|a l1].
     + cbn [app] in *. apply StronglySorted_inv in Hs as [Hs _]. destruct (IH Hs) as (pre & ->).
       exists (e :: pre). reflexivity.
     + exfalso. cbn [app] in Hs. apply StronglySorted_inv in Hs as [_ Hs].
-      rewrite Forall_forall in Hs. specialize (Hs e). unfold ltm in Hs.
+      rewrite Forall_forall in Hs. specialize (Hs e). unfold before in Hs.
       assert (In e (l1 ++ e :: l2)) by (apply in_or_app; right; cbn; auto).
-      specialize (Hs H). specialize (Hmin a (or_introl eq_refl)). lia.
+      specialize (Hs H). specialize (Hleb a (or_introl eq_refl)). congruence.
 Qed.
 
-Lemma sorted_suffix (pre es : list pfile) : StronglySorted ltm (pre ++ es) -> StronglySorted ltm es.
+Lemma sorted_suffix leb (pre es : list pfile) : StronglySorted (before leb) (pre ++ es) -> StronglySorted (before leb) es.
 Proof. induction pre; cbn [app]; auto. intros H. apply StronglySorted_inv in H as [H _]. auto. Qed.
 
-Lemma sorted_snoc (es : list pfile) e : StronglySorted ltm es -> Forall (fun x => p_mtime x < p_mtime e) es ->
-  StronglySorted ltm (es ++ [e]).
+Lemma sorted_snoc v (es : list pfile) e : StronglySorted (before (heap_leb v)) es ->
+  Forall (fun x => p_mtime x < p_mtime e) es -> StronglySorted (before (heap_leb v)) (es ++ [e]).
 Proof.
   induction 1 as [|a es Hs IH Ha]; intros Hf; cbn [app].
   - constructor; constructor.
   - inversion Hf; subst. constructor; auto. apply Forall_app. split; auto.
+    constructor; [|constructor]. unfold before. now apply heap_leb_younger.
 Qed.
 
 Section Suffix.
 Variable prefix : bytes.
+Variable b18 : bool.
+Notation pv := (post b18).
+Notation ltm := (before (heap_leb pv)).
 
 Lemma step_entries m cfg rest cf w ev w' :
   cfg_ok cfg -> WInv prefix rest cf w -> w_len w < two63 -> slen (w_set w) <= max_keep_bytes cfg ->
-  l_size ev < two63 -> step post_fix m cfg w ev = ROk w' ->
+  l_size ev < two63 -> step pv m cfg w ev = ROk w' ->
   exists pushed, (pushed = [] \/ pushed = [mkPfile (w_cur w) (l_time ev) (w_len w)]) /\
-                 Pops (fun _ => True) (entries (w_set w) ++ pushed) (entries (w_set w')).
+                 Pops (heap_leb pv) (fun _ => True) (entries (w_set w) ++ pushed) (entries (w_set w')).
 Proof.
   intros [Cw Ck] I Hl Hs Hn. unfold step.
-  destruct (phase_rotate_ok prefix m cfg rest cf w ev I Hl Hn) as [(E & Hsz & Hag)|(nm & E & I1)]; [lia| |].
+  destruct (phase_rotate_ok prefix b18 m cfg rest cf w ev I Hl Hn) as [(E & Hsz & Hag)|(nm & E & I1)]; [lia| |].
   - rewrite E. cbn [bind].
-    destruct (phase_delete_ok prefix m cfg rest cf w ev I) as (rest' & st' & E2 & I2 & K & Hb & Hage & P).
+    destruct (phase_delete_ok prefix b18 m cfg rest cf w ev I) as (rest' & st' & E2 & I2 & K & Hb & Hage & P).
     cbn zeta in E2, I2. rewrite E2. cbn [bind].
     destruct (phase_append_ok prefix m rest' cf _ ev I2) as [E3 I3].
     { cbn [w_len]. rewrite <- two63_two64. lia. }
     cbn zeta in E3. cbn [w_set w_cur w_len w_created] in E3. rewrite E3. intros [= <-].
     exists []. split; auto. rewrite app_nil_r. exact P.
   - rewrite E. cbn [bind].
-    destruct (phase_delete_ok prefix m cfg (rest ++ [cf]) (new_file nm (l_time ev)) _ ev I1) as (rest' & st' & E2 & I2 & K & Hb & Hage & P).
+    destruct (phase_delete_ok prefix b18 m cfg (rest ++ [cf]) (new_file nm (l_time ev)) _ ev I1) as (rest' & st' & E2 & I2 & K & Hb & Hage & P).
     cbn zeta in E2, I2. cbn [w_set w_cur w_len w_created] in E2, I2, Hb, P.
     rewrite E2. cbn [bind].
     destruct (phase_append_ok prefix m rest' (new_file nm (l_time ev)) _ ev I2) as [E3 I3].
@@ -66,13 +71,13 @@ Lemma run_events_suffix m cfg : cfg_ok cfg -> forall evs rest cf w t,
   Forall (fun l => l_size l < two63) evs ->
   StronglySorted ltm (entries (w_set w)) -> Forall (fun e => p_mtime e <= t) (entries (w_set w)) -> inc t evs ->
   exists w' pushed pre,
-    run_events post_fix m cfg w evs = ROk w' /\ entries (w_set w) ++ pushed = pre ++ entries (w_set w') /\
+    run_events pv m cfg w evs = ROk w' /\ entries (w_set w) ++ pushed = pre ++ entries (w_set w') /\
     StronglySorted ltm (entries (w_set w')).
 Proof.
   intros Cok. induction evs as [|ev evs IH]; intros rest cf w t I Hl Hs Hsz Hso Hle Hinc.
   - exists w, [], []. cbn [run_events app]. rewrite app_nil_r. auto.
   - inversion Hsz as [|? ? Hev Hsz']; subst. destruct Hinc as [Ht Hinc]. cbn [run_events].
-    destruct (step_ok prefix m cfg rest cf w ev Cok I Hl Hs Hev) as (rest1 & cf1 & w1 & E & I1 & _ & Hl1 & Hs1 & _).
+    destruct (step_ok prefix b18 m cfg rest cf w ev Cok I Hl Hs Hev) as (rest1 & cf1 & w1 & E & I1 & _ & Hl1 & Hs1 & _).
     rewrite E. cbn [bind].
     destruct (step_entries m cfg rest cf w ev w1 Cok I Hl Hs Hev E) as (pushed & Hp & P).
     assert (Hso0 : StronglySorted ltm (entries (w_set w) ++ pushed)).
@@ -82,7 +87,7 @@ Proof.
     { apply Forall_app. split.
       - eapply Forall_impl; [|exact Hle]. cbn beta. intros; lia.
       - destruct Hp as [->| ->]; constructor; [cbn; lia|constructor]. }
-    destruct (Pops_sorted_suffix _ _ _ P Hso0) as (pre1 & E1).
+    destruct (Pops_sorted_suffix _ _ _ _ P Hso0) as (pre1 & E1).
     assert (Hso1 : StronglySorted ltm (entries (w_set w1))) by (rewrite E1 in Hso0; eapply sorted_suffix; eauto).
     assert (Hle1 : Forall (fun e => p_mtime e <= l_time ev) (entries (w_set w1))).
     { rewrite E1 in Hle0. apply Forall_app in Hle0. tauto. }
@@ -94,11 +99,11 @@ Qed.
 (* what start leaves in the set *)
 Lemma start_entries m cfg fs0 ts sl w :
   NoDup (live_names fs0) -> total_size post_fix prefix fs0 < two64 -> l_size sl < two63 ->
-  start post_fix m cfg prefix fs0 ts sl = ROk w ->
-  Pops (fun _ => True) (map entry_of (logs prefix fs0)) (entries (w_set w)).
+  start pv m cfg prefix fs0 ts sl = ROk w ->
+  Pops (heap_leb pv) (fun _ => True) (map entry_of (logs prefix fs0)) (entries (w_set w)).
 Proof.
   intros Hnd Htot Hs. unfold start, set_new.
-  fold (logs prefix fs0). rewrite logs_entry_lens.
+  change (filter (is_log_file pv prefix) fs0) with (logs prefix fs0). rewrite logs_entry_lens.
   rewrite (sum64_fits m _ 0) by (unfold total_size, log_files in Htot; unfold logs; lia).
   set (st0 := mkPset (map entry_of (logs prefix fs0)) (0 + sumN (map f_size (logs prefix fs0))) ts).
   assert (G0 : Good prefix fs0 [] st0).
@@ -107,38 +112,39 @@ Proof.
     - apply logs_entry_names.
     - apply logs_entry_lens.
     - rewrite logs_entry_lens. lia. }
-  destruct (while_over_good prefix m (max_keep_bytes cfg) fs0 [] st0 G0) as (rest & st1 & E & G1 & K & Hle & P & _).
+  destruct (while_over_good prefix b18 m (max_keep_bytes cfg) fs0 [] st0 G0) as (rest & st1 & E & G1 & K & Hle & P & _).
   rewrite !app_nil_r in E. rewrite E.
   destruct (create_some (ticks_per_sec cfg) (l_time sl) rest) as (nm & Ec & Gn & Hfresh). rewrite Ec.
   rewrite add64_ok by (pose proof two63_two64; lia).
   intros [= <-]. cbn [w_set]. exact P.
 Qed.
 
-(* survivors_are_suffix for one run over any directory whose log files have strictly increasing
-   mtimes (in list order) that lie before the start, under a strictly increasing clock, for
-   EVERY tie schedule of the heap (there are no ties then) *)
+(* survivors_are_suffix for one run over any directory whose log files are strictly sorted in the
+   heap order (before D18: strictly increasing mtimes; after D18: increasing (mtime, path), EQUAL
+   MTIMES ALLOWED) and not younger than the start, under a strictly increasing clock, for EVERY tie
+   schedule of the heap *)
 Lemma survivors_are_suffix_run m MW WA fsA r :
   dir_ok prefix fsA -> wf_run MW WA r ->
-  StronglySorted N.lt (map f_mtime (logs prefix fsA)) ->
+  StronglySorted (fun f g => heap_leb pv (entry_of g) (entry_of f) = false) (logs prefix fsA) ->
   Forall (fun f => f_mtime f <= l_time (r_start r)) (logs prefix fsA) ->
   inc (l_time (r_start r)) (r_events r) ->
   exists w rest cf pushed pre,
-    run_one post_fix m prefix fsA r = ROk w /\ w_fs w = rest ++ [cf] /\
+    run_one pv m prefix fsA r = ROk w /\ w_fs w = rest ++ [cf] /\
     map p_name (entries (w_set w)) = map f_name (logs prefix rest) /\
     map entry_of (logs prefix fsA) ++ pushed = pre ++ entries (w_set w).
 Proof.
   intros [Hnd Htot] (Cok & Hmw & Hwa & Hsz) Hsort Hbefore Hinc.
   unfold run_lines in Hsz. inversion Hsz as [|? ? Hs0 Hevs]; subst.
   unfold run_one.
-  destruct (start_ok prefix m (r_cfg r) fsA (r_ties r) (r_start r) Hnd Htot Hs0) as (rest & nm & w & E & I & K & Gn & Hl & Hs).
+  destruct (start_ok prefix b18 m (r_cfg r) fsA (r_ties r) (r_start r) Hnd Htot Hs0) as (rest & nm & w & E & I & K & Gn & Hl & Hs).
   pose proof (start_entries m (r_cfg r) fsA (r_ties r) (r_start r) w Hnd Htot Hs0 E) as P0.
   rewrite E. cbn [bind].
   assert (Hso0 : StronglySorted ltm (map entry_of (logs prefix fsA))).
   { clear - Hsort. induction (logs prefix fsA) as [|f l IH]; cbn [map] in *; [constructor|].
     apply StronglySorted_inv in Hsort as [Hs Hf]. constructor; auto.
     rewrite Forall_forall in *. intros e He. apply in_map_iff in He as (g & <- & Hg).
-    unfold ltm. cbn. apply Hf. now apply in_map. }
-  destruct (Pops_sorted_suffix _ _ _ P0 Hso0) as (pre0 & E0).
+    unfold before. now apply Hf. }
+  destruct (Pops_sorted_suffix _ _ _ _ P0 Hso0) as (pre0 & E0).
   assert (Hso1 : StronglySorted ltm (entries (w_set w))) by (rewrite E0 in Hso0; eapply sorted_suffix; eauto).
   assert (Hle1 : Forall (fun e => p_mtime e <= l_time (r_start r)) (entries (w_set w))).
   { assert (Hall : Forall (fun e => p_mtime e <= l_time (r_start r)) (map entry_of (logs prefix fsA))).
@@ -147,7 +153,7 @@ Proof.
   assert (Hl2 : w_len w < two63) by (rewrite Hl; exact Hs0).
   destruct (run_events_suffix m (r_cfg r) Cok (r_events r) _ _ w _ I Hl2 Hs Hevs Hso1 Hle1 Hinc)
     as (w' & pushed & pre & E' & E2 & _).
-  destruct (run_events_ok prefix m (r_cfg r) fsA MW WA Cok Hmw Hwa (r_events r) _ _ w [r_start r] I Hl2 Hs Hevs)
+  destruct (run_events_ok prefix b18 m (r_cfg r) fsA MW WA Cok Hmw Hwa (r_events r) _ _ w [r_start r] I Hl2 Hs Hevs)
     as (rest' & cf' & w'' & E'' & I' & _).
   { pose proof (HI_kills prefix _ _ MW WA _ _ (HI_init prefix fsA MW WA) K) as H'.
     apply (HIc_of_snoc prefix _ _ _ _ _ (add_line (r_start r) (new_file nm (l_time (r_start r))))) in H'; [exact H'|apply fprop_first_line]. }
